@@ -320,10 +320,29 @@ func genC07(rt *rapid.T, thorough bool) c07Case {
 		cfg := model.DefaultCfg(mode)
 		cfg.MaxDepth = 2
 		cfg.PCatch, cfg.PVary, cfg.PAbsent, cfg.PJunk, cfg.PTestSat, cfg.POpts, cfg.PPost = 0.3, 0.4, 0.15, 0.12, 0.6, 0.15, 0
+		failingPost := rapid.IntRange(0, 4).Draw(rt, "failingpost") == 0
+		if failingPost {
+			// a call whose only possible issue is the error one PostTransform returns (no tests, nothing required, valid
+			// input): determined whatever the field order, and built entirely from recycled helper objects
+			cfg.PCatch, cfg.PReq, cfg.PDefault, cfg.PJunk, cfg.PAbsent, cfg.PPre, cfg.PCoercer = 0, 0, 0, 0, 0.1, 0, 0
+			cfg.MaxTests, cfg.NoFuncTests, cfg.NoCustom = 0, true, true
+			cfg.RootKinds = []string{model.KStruct, model.KStruct, model.KSlice, model.KPtr}
+		}
 		cs := model.GenCase(rt, cfg)
+		if failingPost {
+			var nodes []*model.Node
+			cs.Root.Walk(func(n *model.Node) { nodes = append(nodes, n) })
+			at := nodes[rapid.IntRange(0, len(nodes)-1).Draw(rt, "postat")]
+			at.Posts = []model.PostSpec{{Behaviour: "error"}}
+			cs = model.RoundTrip(cs)
+			if !model.OnlyPostFailure(cs.Root, cs.Exec.Mode, cs.Input) {
+				// something else in this call can produce an issue: which PostTransforms still run would then depend on the visit order
+				cs.Root.Walk(func(n *model.Node) { n.Posts = nil })
+			}
+		}
 		// make sure callbacks exist that read the context
 		cs.Root.Walk(func(n *model.Node) {
-			if model.IsPrimitive(n.Kind) || n.Kind == model.KStruct || n.Kind == model.KSlice {
+			if !failingPost && (model.IsPrimitive(n.Kind) || n.Kind == model.KStruct || n.Kind == model.KSlice) {
 				n.Tests = append(n.Tests, model.TestSpec{Name: "func", Str: "pass", Opts: model.Opts{Code: "rec"}})
 			}
 		})
@@ -341,7 +360,7 @@ func genC07(rt *rapid.T, thorough bool) c07Case {
 		c.Same = append(c.Same, -1)
 		c.Rot = append(c.Rot, 0)
 		js := ""
-		if mode == "parse" && cs.Root.Kind == model.KStruct && rapid.IntRange(0, 3).Draw(rt, "json") == 0 {
+		if mode == "parse" && cs.Root.Kind == model.KStruct && !failingPost && rapid.IntRange(0, 3).Draw(rt, "json") == 0 {
 			var sb strings.Builder
 			if err := model.JSONOf(cs.Root, cs.Input, &sb); err == nil && rapid.Bool().Draw(rt, "jvalid") {
 				js = sb.String()
@@ -354,7 +373,7 @@ func genC07(rt *rapid.T, thorough bool) c07Case {
 		}
 		c.JSON = append(c.JSON, js)
 		// sometimes a second call that reuses this schema object with another destination type and other data
-		if cs.Root.Kind == model.KStruct && len(c.Calls) < ncalls && rapid.IntRange(0, 2).Draw(rt, "reuse") == 0 {
+		if cs.Root.Kind == model.KStruct && !failingPost && len(c.Calls) < ncalls && rapid.IntRange(0, 2).Draw(rt, "reuse") == 0 {
 			cfg2 := cfg
 			cfg2.Mode = rapid.SampledFrom([]string{"parse", "validate"}).Draw(rt, "mode2")
 			g := model.NewGen(rt, cfg2)
@@ -416,7 +435,7 @@ func seedWitnesses(g *model.Gen, n *model.Node) {
 
 func TestC07(t *testing.T) {
 	h := hh.Start(t, "C07",
-		"cases = histories over a pool of 3-8 (thorough 4-14) generated calls (schema, data as Go value / zjson document / urlencoded body through zhttp, mode, WithCtxValue sets incl. the i18n language key, WithIssueFormatter), executed in random order with interleaved actions: collect an earlier result (Collect per issue / CollectList / CollectMap / Sanitize*AndCollect), force GC (empties the pools), inject dirty recycled objects of every reachable shape into one or all of the seven pools, run a call whose user callback panics (deferred releases run mid-execution); i18n (en, es) installed as global formatter; non-trivial = a call executed after an earlier call that set context values / a formatter / produced issues, after a panicking call, or after a dirty injection; distinct = FNV-1a of the case JSON",
+		"cases = histories over a pool of 3-8 (thorough 4-14) generated calls (schema - a fifth of them test-free with exactly one PostTransform that returns an error -, data as Go value / zjson document / urlencoded body through zhttp, mode, WithCtxValue sets incl. the i18n language key, WithIssueFormatter), executed in random order with interleaved actions: collect an earlier result (Collect per issue / CollectList / CollectMap / Sanitize*AndCollect), force GC (empties the pools), inject dirty recycled objects of every reachable shape into one or all of the seven pools, run a call whose user callback panics (deferred releases run mid-execution); i18n (en, es) installed as global formatter; non-trivial = a call executed after an earlier call that set context values / a formatter / produced issues, after a panicking call, or after a dirty injection; distinct = FNV-1a of the case JSON",
 		"reference = the same call on freshly cleared pools (computed first); after every call the complete observable result - every issue field (code, path, type, message, params deep, value, error text), $first / key set, destination, and the ctx.Get values seen by its callbacks - must equal the reference",
 		"dirty objects are limited to states reachable through zog's own API (PathBuilder element 0 stays empty); collected issues are never inspected afterwards")
 	defer h.Finish()
